@@ -354,6 +354,63 @@ def model_value(bname, line, n):
     return ('val', [[float('nan') if q == 'nan' else float(Fr(q))]]), {'q': None if q == 'nan' else Fr(q)}
 
 
+# ------------------------------------------------------------------ as-coded model of gateway_coef_sign (scopes known finding D16)
+
+def gateway_ascoded(W, lab, ctype, bct):
+    """What centrality.py's gateway_coef_sign computes *as it is written* (Python port of gcoef in Model/Partition.lean: `kj[i] /= 2`
+    with the module number used as member index, `cent[neighbs]` indexed by positions inside the module).  W: Fractions, any
+    orderable labels.  -> canon()-shaped value.  D16 is accepted as a *known* finding only where bct agrees with this function;
+    any other deviation of gateway_coef_sign is a new violation."""
+    n = len(W)
+    u = sorted(set(lab)); ci = [u.index(x) for x in lab]; k = len(u)
+    mem = [[v for v in range(n) if ci[v] == i] for i in range(k)]
+
+    def gcoef(Wp):
+        s = [sum(r) for r in Wp]
+        ks = [[0] * k for _ in range(n)]
+        for x in range(n):
+            for v in range(n):
+                if Wp[x][v] != 0:
+                    ks[x][ci[v]] += Wp[x][v]
+        if ctype == 'degree':
+            cent = s
+        else:
+            A = np.array([[float(x) for x in r] for r in Wp])
+            cent = [float(x) for x in bct.betweenness_wei(bct.invert(A))]
+        maxc = 0
+        for i in range(k):
+            cen = sum(cent[v] for v in mem[i])
+            if cen > maxc:
+                maxc = cen
+        for i in range(k):
+            if 1 < len(mem[i]) <= i:
+                raise IndexError('as-coded: kj[i] with i >= module size')
+        kjs = [0] * n
+        for i in range(k):
+            if len(mem[i]) > 1:
+                tot = sum(sum(ks[x]) for x in mem[i])
+                for t, x in enumerate(mem[i]):
+                    kjs[x] = tot / 2 if t == i else tot
+        out = []
+        for x in range(n):
+            if s[x] == 0 or maxc == 0:
+                out.append(0.0); continue
+            acc = 0
+            for j in range(k):
+                if ks[x][j] == 0:
+                    continue
+                cs = sum(cent[t] for t, y in enumerate(mem[j]) if Wp[y][x] > 0)
+                ksm = 0 if kjs[x] == 0 else ks[x][j] / kjs[x]
+                acc += ks[x][j] ** 2 / s[x] ** 2 * (1 - ksm * cs / maxc) ** 2
+            out.append(float(1 - acc))
+        return out
+    W0 = [[Fr(0) if i == j else W[i][j] for j in range(n)] for i in range(n)]
+    try:
+        return ('val', [gcoef(pos(W0)), gcoef(neg(W0))])
+    except IndexError:
+        return ('exc', 'IndexError')
+
+
 # ------------------------------------------------------------------ workers
 
 def run_consumers(case):
@@ -378,11 +435,11 @@ def run_consumers(case):
         for name, lab in case['relabs']:
             A0 = A.copy(); la = larr(lab); la0 = la.copy()
             if bname in ('modularity_und', 'modularity_dir'):
-                st, o = call(f, A, pykw['gamma'], la, t=T)
+                st, o = call(f, A, pykw['gamma'], la, t=T, retry=10)
             elif bname == 'modularity_und_sign':
-                st, o = call(f, A, la, pykw['qtype'], t=T)
+                st, o = call(f, A, la, pykw['qtype'], t=T, retry=10)
             else:
-                st, o = call(f, A, la, t=T, **pykw)
+                st, o = call(f, A, la, t=T, retry=10, **pykw)
             res[name] = canon(st, o, bname)
             out['evals'] += 1
             tally(out, bname, st)
@@ -391,7 +448,7 @@ def run_consumers(case):
                 out['viol'].append((bname, 'labels-modified', dict(wdet(W), n=n, labels=lab, variant=vid), {}))
             if case['model'] and op is not None and is_int_labels(lab):
                 out['lean'].append(('%s n=%d W=%s c=%s %s' % (op, n, rmat_str(W), ints_str(lab), extra), bname, vid, name, lab, res[name], kind))
-        base = res['identity']
+        base = res['identity']; gw_cache = {}
         if base[0] == 'timeout':
             out['dist']['timeouts'] = out['dist'].get('timeouts', 0) + 1
             continue
@@ -402,19 +459,30 @@ def run_consumers(case):
                 continue
             if not same(base, res[name]):
                 mono = ranks(lab) == ident_rank
+                extra_cond = {}
+                if bname == 'gateway_coef_sign':
+                    ct = kw.get('centrality_type', 'degree')
+                    if 'base_agrees' not in gw_cache:
+                        gw_cache['base_agrees'] = same(gateway_ascoded(W, case['relabs'][0][1], ct, bct), base, 1e-9)
+                    extra_cond = {'ascoded_model_agrees': gw_cache['base_agrees'] and same(gateway_ascoded(W, lab, ct, bct), res[name], 1e-9)}
                 out['viol'].append((bname, 'label-invariance',
                                     dict(wdet(W), **{'n': n, 'kind': kind, 'variant': vid, 'kwargs': {a: str(b) for a, b in kw.items()},
                                      'labels': case['relabs'][0][1], 'relabelled': lab, 'relabelling': name,
                                      'result': base, 'result_relabelled': res[name]}),
-                                    {'order_preserving': mono, 'multi_node_module': len(set(c)) < n}))
+                                    dict({'order_preserving': mono, 'multi_node_module': len(set(c)) < n}, **extra_cond)))
         # predicate 2: the result equals the definition evaluated with label *equality* only
         o = oracle(vid, bname, W, case['relabs'][0][1], kw)
         if o is not None and base[0] == 'val':
             if not same(base, oracle_floats(bname, o, k), 1e-9):
                 out['viol'].append((bname, 'definition', {'n': n, **wdet(W), 'variant': vid, 'kind': kind, 'labels': case['relabs'][0][1],
                                                           'result': base, 'expected': oracle_floats(bname, o, k)}, {}))
-        elif base[0] == 'exc' and (o is not None or base[1] != 'IndexError'):
-            out['viol'].append((bname, 'raises', {'n': n, **wdet(W), 'variant': vid, 'kind': kind, 'labels': case['relabs'][0][1], 'exception': base[1]}, {}))
+        elif base[0] == 'exc':
+            # a consumer raising on a valid partition is a violation by itself; for gateway_coef_sign the IndexError path of D16 is
+            # a *known* one only where the as-coded model raises on the same input
+            cnd = {'exception': base[1]}
+            if bname == 'gateway_coef_sign':
+                cnd['ascoded_model_agrees'] = same(gateway_ascoded(W, case['relabs'][0][1], kw.get('centrality_type', 'degree'), bct), base, 1e-9)
+            out['viol'].append((bname, 'raises', {'n': n, **wdet(W), 'variant': vid, 'kind': kind, 'labels': case['relabs'][0][1], 'exception': base[1]}, cnd))
         nontriv = k >= 2 and base[0] == 'val' and any(x != 0 and not math.isnan(x) for p in base[1] for x in p)
         if nontriv:
             out['keys'].append(digest([vid, wdet(W), c]))
@@ -457,7 +525,7 @@ def run_pd(case):
     lx, ly = case['rx'][0][1], case['ry'][0][1]
 
     def pd(a, b):
-        st, o = call(bct.partition_distance, larr(a), larr(b), t=5)
+        st, o = call(bct.partition_distance, larr(a), larr(b), t=5, retry=10)
         out['evals'] += 1
         tally(out, 'partition_distance', st)
         if st == 'ok':
@@ -511,7 +579,7 @@ def run_lists(case):
     out = {'viol': [], 'lean': [], 'evals': 0, 'keys': [], 'dist': {}, 'sample': None}
     truth = blocks_set(modules_of(c))
     for name, lab in case['relabs']:
-        st, ls = call(bct.ci2ls, larr(lab), t=5); out['evals'] += 1; tally(out, 'ci2ls', st)
+        st, ls = call(bct.ci2ls, larr(lab), t=5, retry=10); out['evals'] += 1; tally(out, 'ci2ls', st)
         det = {'n': n, 'labels': lab, 'relabelling': name}
         if st != 'ok':
             out['viol'].append(('ci2ls', 'raises', dict(det, exception=str(ls)), {})); continue
@@ -523,7 +591,7 @@ def run_lists(case):
             if n <= 10:   # large cases are not sent to the interpreted Lean driver
                 out['lean'].append(('ci2ls n=%d c=%s' % (n, ints_str(lab)), 'ci2ls', 'ci2ls', name, lab, ('val', lsl), exp_order))
         for z in (False, True):
-            st2, ci = call(bct.ls2ci, lsl, z, t=5); out['evals'] += 1; tally(out, 'ls2ci', st2)
+            st2, ci = call(bct.ls2ci, lsl, z, t=5, retry=10); out['evals'] += 1; tally(out, 'ls2ci', st2)
             if st2 != 'ok':
                 out['viol'].append(('ls2ci', 'raises', dict(det, ls=lsl, exception=str(ci)), {})); continue
             ci = [int(v) for v in ci]
@@ -538,13 +606,13 @@ def run_lists(case):
         rs.shuffle(bl)
         bl = [[int(v) for v in rs.permutation(b)] for b in bl]
         for z in (False, True):
-            st, ci = call(bct.ls2ci, bl, z, t=5); out['evals'] += 1; tally(out, 'ls2ci', st)
+            st, ci = call(bct.ls2ci, bl, z, t=5, retry=10); out['evals'] += 1; tally(out, 'ls2ci', st)
             if st != 'ok':
                 out['viol'].append(('ls2ci', 'raises', {'ls': bl, 'exception': str(ci)}, {})); continue
             ci = [int(v) for v in ci]
             if n <= 10:   # large cases are not sent to the interpreted Lean driver
                 out['lean'].append(('ls2ci n=%d ls=%s z=%d' % (n, '|'.join(ints_str(b) for b in bl), 0 if z else 1), 'ls2ci', 'ls2ci', 'blocks', bl, ('val', ci), None))
-            st, ls2 = call(bct.ci2ls, np.array(ci), t=5); out['evals'] += 1; tally(out, 'ci2ls', st)
+            st, ls2 = call(bct.ci2ls, np.array(ci), t=5, retry=10); out['evals'] += 1; tally(out, 'ci2ls', st)
             if st != 'ok' or [[int(v) for v in b] for b in ls2] != [sorted(b) for b in bl]:
                 out['viol'].append(('ci2ls', 'inverse-of-ls2ci', {'ls': bl, 'ci': ci, 'back': str(ls2)}, {}))
     if max(c) > 0:
@@ -564,7 +632,7 @@ def run_agreement(case):
     res = {}
     for name, cols in (('identity', case['cols']), ('relabelled', case['cols2'])):
         ci = np.array(cols, dtype=np.int64).T
-        st, D = call(bct.agreement, ci, t=5); out['evals'] += 1; tally(out, 'agreement', st)
+        st, D = call(bct.agreement, ci, t=5, retry=10); out['evals'] += 1; tally(out, 'agreement', st)
         det = {'n': n, 'ci_columns': cols}
         if st == 'exc':
             out['viol'].append(('agreement', 'raises', dict(det, exception=D), {'exception': exc_name(D)}))
@@ -799,12 +867,22 @@ def main():
     if not same(a, b) or e[0] == 'exc':
         ck.violation('gateway_coef_sign', 'label-invariance',
                      {'n': 4, 'W': '0,1,2,0,1,0,0,3,2,0,0,1,0,3,1,0', 'labels': [1, 2, 2, 2], 'relabelled': [2, 1, 1, 1], 'result': a, 'result_relabelled': b,
-                      'labels_3321': e}, {'order_preserving': False, 'multi_node_module': True})
+                      'labels_3321': e},
+                     {'order_preserving': False, 'multi_node_module': True,
+                      'ascoded_model_agrees': all(same(gateway_ascoded([[Fr(x) for x in r] for r in Ww.tolist()], l, 'degree', bct), v, 1e-9)
+                                                  for l, v in (([1, 2, 2, 2], a), ([2, 1, 1, 1], b), ([3, 3, 2, 1], e)))})
     # ---- correspondence
     if ok:
         try:
             lines = [it[0] for it in items]
-            outs = run_driver('Partition', lines + MALFORMED, timeout=1500)
+            # the interpreted driver is single-threaded: run it on 6 slices in parallel (order preserved)
+            from concurrent.futures import ThreadPoolExecutor
+            allin = lines + MALFORMED
+            nch = 6 if len(allin) > 600 else 1
+            sz = (len(allin) + nch - 1) // nch
+            with ThreadPoolExecutor(nch) as ex:
+                parts = list(ex.map(lambda ch: run_driver('Partition', ch, timeout=1500), [allin[i:i + sz] for i in range(0, len(allin), sz)]))
+            outs = [o for pt in parts for o in pt]
             nv, nd = compare_model(ck, items, outs[:len(lines)])
             for ln, o in zip(MALFORMED, outs[len(lines):]):
                 ck.count('malformed_lines')
